@@ -177,6 +177,8 @@ HASH_CONDS = [
     ("GT", _H, ("ADD", ("k", 2**256 - 1), _H)),       # h > h - 1
     ("GT", _H, ("ADD", ("k", 2**255), _H)),           # h > h + 2^255 : true iff h >= 2^255
     ("LT", ("ADD", ("k", 2**64), _H), ("keccak1", Y)),  # different hash terms
+    ("GT", _H, ("ADD", ("ADD", ("k", 5), _H), Y)),      # h > 5 + h + y : a third addend makes the wrap-around possible
+    ("LT", ("ADD", Y, ("ADD", _H, ("k", 5))), _H),
 ]
 
 
